@@ -37,7 +37,8 @@ ALPHABET = [0.0, A, B, -A, A]  # a appears twice: repeated values are part of th
 
 
 def BOUNDS(tier):
-    return {"alphabet": ALPHABET, "depth": 4 if tier == "thorough" else 3, "steps": "1..2 (every split)", "failure_positions": "every position", "failure_kinds": ["nan", "never", "real"]}
+    return {"alphabet": ALPHABET, "depth": 4 if tier == "thorough" else 3, "steps": "1..2 (every split)", "failure_positions": "every position", "failure_kinds": ["nan", "never", "real"],
+            "models": "1 cell, 2 cells (thorough) homogeneous; clamped 2x2x1 block (plasticity, yielding and elastic points in one state)"}
 
 
 ITEMS = ["NeoHooke", "OgdenRoxburgh", "tt-OgdenRoxburgh", "plasticity", "tt-visco"]
